@@ -182,13 +182,17 @@ func HC19RTT() {
 	rr := &rtcp.ReceiverReport{SSRC: 1, Reports: []rtcp.ReceptionReport{{SSRC: 100, LastSenderReport: lsr, Delay: delay}}}
 	st = r.recordIncomingRTCP(st, &incomingRTCP{ts: ts, pkts: []rtcp.Packet{rr}})
 	ri := st.RemoteInboundRTPStreamStats
-	if k < nsr {
+	remembered := k < nsr && k >= nsr-5 // only the five newest sender reports are remembered
+	if remembered {
 		vr.Cover("matching sender report")
 		dlsr := time.Duration(uint64(delay) * 1953125 / 128) // delay/65536 s in ns, exact
 		vr.Assert(ri.RoundTripTimeMeasurements == 1, "one measurement")
 		vr.Assert(ri.RoundTripTime == ts.Add(-dlsr).Sub(sent), "RTT = arrival - DLSR - send time of the matching sender report")
 		vr.Assert(ri.TotalRoundTripTime == ri.RoundTripTime, "total accumulates")
 	} else {
+		if k < nsr {
+			vr.Cover("sender report too old")
+		}
 		vr.Cover("no matching sender report")
 		vr.Assert(ri.RoundTripTimeMeasurements == 0 && ri.RoundTripTime == 0, "no matching sender report: no measurement")
 	}
